@@ -156,6 +156,54 @@ Section SubConf.
     table_sub conf (type_key_of r) uid salt (host_of (sector_source r redirect_uri)) fresh.
 End SubConf.
 
+(* ==== THE REQUEST as an explicit input ====
+   What the authorization endpoint holds when it creates the grant is the ASSEMBLED request (front channel parameters, merged
+   with a request object / replaced by a pushed request): its redirect_uri and every other member by name - protocol parameters
+   and EXTENSION parameters alike (an authorization request may carry members the provider does not know; they stay in the
+   message).  One place looks at it on the way to the sub:
+     Authorization._subject_args(request):   _sector = cinfo.get("sector_id") or cinfo.get("sector_identifier_uri")
+                                             if not _sector: _sector = request.get("redirect_uri", "")
+                                             sub_type = cinfo.get("subject_type") or "public";  sector_identifier = urlparse(_sector).hostname or ""
+     SessionManager.create_session / create_grant(auth_req, sub_type, sector_identifier):
+                                             sub = sub_func[sub_type](user_id, salt=.., sector_identifier=sector_identifier)
+   (create_grant once fell back on auth_req.get("sector_identifier_uri") when the registration yielded no sector host; repaired in
+   /repo c7c9b10: the request is not consulted for the sector at all).  No member of the request is read - not sector_identifier_uri,
+   subject_type / sub_type / salt / sub / user_id / claims ...; the members are an argument of the model all the same, and the
+   theorems of Props/C18.v say it is irrelevant. *)
+Record areq := mkAreq { rq_redirect : pystr; rq_members : list (pystr * pystr) }.
+Definition plain_request (redirect_uri : pystr) : areq := mkAreq redirect_uri [].
+
+Section SubRq.
+  Variable H : pystr -> pystr.
+  Variable host_of : pystr -> pystr.
+
+  (* the sector_identifier _subject_args hands to create_session / create_grant *)
+  Definition subject_sector (r : creg) (rq : areq) : pystr := host_of (sector_source r (rq_redirect rq)).
+  (* the sector create_grant feeds to the minter: that one, whatever the request holds *)
+  Definition grant_sector (r : creg) (rq : areq) : pystr := subject_sector r rq.
+
+  (* the sub of the grant a request creates: built-in minters / configured minters *)
+  Definition grant_sub_rq (r : creg) (rq : areq) (uid salt : pystr) (fresh : nat) : subval :=
+    sub_of H (subtype_of r) uid salt (grant_sector r rq) fresh.
+  Definition grant_sub_conf_rq (conf : list (pystr * centry)) (r : creg) (rq : areq) (uid salt : pystr) (fresh : nat) : subval :=
+    table_sub H conf (type_key_of r) uid salt (grant_sector r rq) fresh.
+End SubRq.
+
+(* the registration names a sector of its own (sector_id or sector_identifier_uri): then not even the redirect_uri of the request plays a part *)
+Definition has_sector (r : creg) : bool :=
+  match truthy (r_sector_id r), truthy (r_sector_uri r) with None, None => false | _, _ => true end.
+
+(* case: hash table, host table, configuration (in dict order; [] = nothing configured), client record, the assembled request,
+   uid, session salt, observed sub (None: a fresh-value minter serves the client's type) *)
+Definition rsub_case := (list (pystr * pystr) * list (pystr * pystr) * list (pystr * centry) * creg * areq * pystr * pystr * option pystr)%type.
+Definition chk_rsub (c : rsub_case) : bool :=
+  let '(ht, hosts, conf, r, rq, uid, salt, observed) := c in
+  match grant_sub_conf_rq (table_hash ht) (table_host hosts) conf r rq uid salt O, observed with
+  | SHash d, Some o => str_eqb d o
+  | SFresh _, None => true
+  | _, _ => false
+  end.
+
 (* ---- correspondence for configured providers ---- *)
 (* case: hash table, host table, configuration (in dict order), client record, redirect_uri, uid, session salt, observed sub
    (None when the generator configured a fresh-value minter for the client's type: only freshness is judged) *)
